@@ -681,7 +681,13 @@ class CSSFunction(Value):
                 Sequence(
                     itemProd,
                     Sequence(
-                        PreDef.comma(optional=True), itemProd, minmax=lambda: (0, None)
+                        Choice(
+                            PreDef.comma(optional=True),
+                            PreDef.char('slash', '/', optional=True),
+                            optional=True,
+                        ),
+                        itemProd,
+                        minmax=lambda: (0, None),
                     ),
                     PreDef.funcEnd(stop=True),
                 ),
